@@ -1,4 +1,5 @@
 import Vore.Props.C01
+import Vore.Props.C10
 import Vore.Props.C03
 /-!
 # C09 — Running an accepted program never crashes, whatever the input
@@ -28,6 +29,20 @@ theorem C09_no_panic_callfree (text : Bytes) (e : Expr) (hcf : CallFree e) (nid 
   rw [hv vf hle amt]
   simp
 
+/-- with subroutines, recursion and global patterns (stage 2): whenever the specification answers, the VM
+returns `.ok`; in particular for every program without unguarded recursion whose predicates evaluate
+(C10_terminates_guarded_source) there is no panic on any input, under any amount clause -/
+theorem C09_no_panic_guarded (G : GEnv) (e : Expr) (r : RExpr) (hr : resolveBody G e = some r)
+    (hGw : WfG G) (he : WfE e) (hne : lenR r ≠ 0)
+    (pf : Nat) (rk : Nat → Nat) (R : Nat)
+    (hG : GuardedP pf (procsOf r) rk R) (hpe : predsOK pf r) (hok : okCalls (procsOf r) rk false R r = true)
+    (text : Bytes) (nid : Nat) (amt : Amount) :
+    ∃ vf0, ∀ vf, vf0 ≤ vf → ∀ t, findMatches pf vf (genBody r nid).1 amt text ≠ some (.panic t) := by
+  obtain ⟨A, vf0, hv⟩ := C10_terminates_guarded_source G e r hr hGw he hne pf rk R hG hpe hok text nid
+  refine ⟨vf0, fun vf hle t => ?_⟩
+  rw [hv vf hle amt]
+  simp
+
 /-- the empty input: no match, no crash, for any instruction list -/
 theorem C09_empty_input (pf vf : Nat) (prog : List Instr) (amt : Amount) :
     findMatches pf vf prog amt [] = some (.ok []) := by
@@ -45,6 +60,7 @@ theorem C09_empty_backref_at_eof (text : Bytes) (x : String) (d : Data) (h : d.e
   simp [backrefD, h]
 
 #print axioms C09_no_panic_callfree
+#print axioms C09_no_panic_guarded
 #print axioms C09_empty_input
 #print axioms C09_empty_body
 #print axioms C09_empty_backref_at_eof
